@@ -403,6 +403,7 @@ def stream_grid(ck):
     quick = ck.tier == "quick"
     ck.stream("evolution-grid", "systematic grid {QubitOperator, FermionOperator (jw, bk, scbk, jkmn)} x {scalar time, per-term time dictionary with distinct times} x "
               "n_trotter_steps {1,2,3} x order {1,2} x control lists of length 0,1,2,3 (not containing / containing qubit 0), commuting operators WITH an identity "
+              "term (fermionic operators: from the number operators and, in half of the cases, an explicit CONSTANT term) "
               "term, real coefficients and times — half of the cases generic reals, half with per-step rotations c_k t_k / n that are EXACT multiples of pi (odd and even k; "
               "exp(-i k pi P) = (-1)^k must not be lost: relative phase under control, returned phase without) —: ||circuit*phase - ctrl(expm(-i sum_k t_k c_k H_k))||_2 <= 1e-8; a raising call is a violation carrying the case "
               "(several controls including qubit 0 + identity term was the recorded finding, repaired by fix ae252bf)")
@@ -434,8 +435,10 @@ def stream_grid(ck):
                                 keys = [((p, 1), (p, 0)) for p in rng.sample(range(4), rng.randint(1, 3))]
                                 if rng.random() < 0.5:
                                     keys.append(((3, 1), (3, 0), (1, 1), (1, 0)))
-                                terms = [(k, rng.uniform(-2, 2)) for k in keys]
                                 mapping = mappings[(combo + len(keys)) % 4]
+                                if rng.random() < 0.5:
+                                    keys.insert(rng.randrange(len(keys) + 1), ())      # a CONSTANT term of the fermionic operator (part of exp(-itH) through the returned phase)
+                                terms = [(k, rng.uniform(-2, 2)) for k in keys]
                             time = [rng.uniform(-2.5, 2.5) for _t in terms] if dict_time else rng.uniform(-2.5, 2.5)
                             if pi_mult:
                                 # exp(-i k pi P) = (-1)^k: odd and even k, each term with its own time; the coefficient is chosen so that the
@@ -449,7 +452,7 @@ def stream_grid(ck):
                                 for (key, c), t_k in zip(terms, tk):
                                     if rng.random() < 0.75:
                                         k = rng.choice([-3, -2, -1, 1, 2, 3, 1, -1])
-                                        g = 1 if kind == "qubit" else (2 if len(key) == 2 else 4)
+                                        g = 1 if (kind == "qubit" or len(key) == 0) else (2 if len(key) == 2 else 4)
                                         c = g * f * k * n * math.pi / t_k
                                     new_terms.append((key, c))
                                 terms = new_terms
@@ -1064,6 +1067,9 @@ def stream_fermion(ck, pre):
             for kk in keys:
                 fop += FermionOperator(kk, c)
                 tdict[kk] = tg
+        if rng.random() < 0.4:          # a constant term: contributes exp(-i c t) through the returned phase (or the control)
+            fop += FermionOperator((), float(Fraction(rng.randint(-16, 16), 2)) * PI16)
+            tdict[()] = float(Fraction(rng.randint(1, 6), 2))
         if not fop.terms:
             continue
         mapping = rng.choice(["jw", "bk", "scbk", "jkmn"])
